@@ -6,7 +6,7 @@ RULE = ("daily runs with buys/sells/closes within and across days, resting closi
         "T+1 on/off, sells of exactly the holding / more than the holding; non-trivial = quantity-changing operation or position-validator decision; "
         "distinct = by (operation, branch, veto)")
 TRUSTED = ["harness wraps Account methods and PositionValidator.validate_submission at run time"]
-ASSUMPTIONS = ["futures: proved under 'resting ordinary closes stay within yesterday's quantity' (what the typed order APIs guarantee); the generic submit_order(CLOSE) + CLOSE_TODAY oversell is finding F12 (theorem future_full_statement_false)"]
+ASSUMPTIONS = ["orders are day orders: nothing rests across before_trading (the invariants that need it say so)"]
 
 
 def run(ctx):
@@ -15,14 +15,14 @@ def run(ctx):
           "closable": ctx.corr("closable / today_closable", "the real position's closable and today_closable at every validation vs model `posClosable/posTodayClosable` from the position's fields and the open closing orders")}
     def gen(rnd, k):
         import bundle as B, trading
-        S = B.gen_market(rnd, ndays=rnd.randrange(10, 26))
-        S["_plan_generic_close"] = True       # only this check's stream runs the scenario of finding F12 (generic CLOSE + CLOSE_TODAY resting together)
-        cfgk = trading.gen_config(rnd, S, {"p_init_pos": 0.2})
+        S = B.gen_market(rnd, ndays=rnd.randrange(10, 26), with_future=True if k % 5 == 2 else None)
+        S["_plan_generic_close"] = True       # only this check's stream runs the scenarios of the repaired finding F12 (a CLOSE reaching into today's lots + a CLOSE_TODAY resting together)
+        cfgk = trading.gen_config(rnd, S, {"p_init_pos": 0.2, "pos_roundtrip": True})
         # the two position-validation switches are independent: one of them off must not silence the other
         sw = rnd.random()
         if sw < 0.2:
             cfgk["accounts_mod"]["validate_future_position"] = False
-        elif sw < 0.45:
+        elif sw < 0.45 or k % 5 == 2:
             cfgk["accounts_mod"]["validate_stock_position"] = False
         return S, cfgk
     tstream.stream(ctx, ctx.n(60, 3000), corrs, [monitors.c10_monitor], gen=gen, extra_sync=lambda c, tr, ix: sync_misc.validators_sync(c, vc, tr, ix))
